@@ -1,1 +1,300 @@
-// harness module for actor (see DESIGN.md)
+// Harnesses for the actor lifecycle at unit level (child module of src/actor.rs: sees Actor{rc}, Actor::terminate,
+// Actor::to_ready, Cx::new, Prep).  Properties: C02 (gating units), C03, C04 (owner units), C05 (Ret units), C20(c).
+// Whole `actor!`/`call!` programs are out of reach (DESIGN P10): no closure type here captures an Actor; actor
+// references needed inside closures are fetched from a static.
+//
+// @file crate=incrate features=multi-stakker,no-unsafe-queue restrict_vtable=1 replay_cfg=uazu_replay_actor
+use super::*;
+use crate::uazu_stakker_verif::support::*;
+use crate::rc::ActorRc;
+
+// ---- observation ----
+pub(crate) struct Obs {
+    notified: u8,    // how often the StopCause notifier ran
+    cause: u8,       // 0 = None (Ret dropped), 1 Stopped, 2 Failed, 3 Killed, 4 Dropped, 5 Lost
+    err: u8,         // payload id of the error
+    val_drops: u8,   // how often the actor's own value was dropped
+    val_dropped_before_notify: bool,
+    held_run: [u8; 4],
+    held_n: usize,
+    held_drops: [u8; 4],
+    in_method: bool,
+    val_dropped_in_method: bool,
+}
+static mut OBS: Obs = Obs {
+    notified: 0, cause: 0, err: 0, val_drops: 0, val_dropped_before_notify: false,
+    held_run: [0; 4], held_n: 0, held_drops: [0; 4], in_method: false, val_dropped_in_method: false,
+};
+fn obs() -> &'static mut Obs {
+    #[allow(static_mut_refs)]
+    unsafe { &mut OBS }
+}
+fn obs_reset() {
+    *obs() = Obs {
+        notified: 0, cause: 0, err: 0, val_drops: 0, val_dropped_before_notify: false,
+        held_run: [0; 4], held_n: 0, held_drops: [0; 4], in_method: false, val_dropped_in_method: false,
+    };
+}
+
+// the actor's own state
+pub(crate) struct Val(u8);
+impl Drop for Val {
+    fn drop(&mut self) {
+        let o = obs();
+        o.val_drops += 1;
+        if o.notified == 0 {
+            o.val_dropped_before_notify = true;
+        }
+        if o.in_method {
+            o.val_dropped_in_method = true;
+        }
+    }
+}
+
+// error payload
+#[derive(Debug)]
+struct E(u8);
+impl fmt::Display for E {
+    fn fmt(&self, _f: &mut fmt::Formatter<'_>) -> fmt::Result {
+        Ok(())
+    }
+}
+impl Error for E {}
+
+fn tag(c: &StopCause) -> (u8, u8) {
+    match c {
+        StopCause::Stopped => (1, 0),
+        StopCause::Failed(e) => (2, e.downcast_ref::<E>().map(|e| e.0).unwrap_or(255)),
+        StopCause::Killed(e) => (3, e.downcast_ref::<E>().map(|e| e.0).unwrap_or(255)),
+        StopCause::Dropped => (4, 0),
+        StopCause::Lost => (5, 0),
+    }
+}
+
+fn notifier() -> Ret<StopCause> {
+    Ret::new(|c: Option<StopCause>| {
+        let o = obs();
+        o.notified += 1;
+        match c {
+            None => o.cause = 0,
+            Some(c) => {
+                let (t, e) = tag(&c);
+                o.cause = t;
+                o.err = e;
+            }
+        }
+    })
+}
+
+// a symbolic termination request: (tag, payload)
+fn any_cause() -> (StopCause, u8, u8) {
+    let k: u8 = kani::any();
+    let p: u8 = kani::any();
+    kani::assume(k >= 1 && k <= 4 && p < 200);
+    let c = match k {
+        1 => StopCause::Stopped,
+        2 => StopCause::Failed(Box::new(E(p))),
+        3 => StopCause::Killed(Box::new(E(p))),
+        _ => StopCause::Dropped,
+    };
+    (c, k, if k == 2 || k == 3 { p } else { 0 })
+}
+
+// token carried by held closures
+struct HTok(u8);
+impl Drop for HTok {
+    fn drop(&mut self) {
+        obs().held_drops[self.0 as usize] += 1;
+    }
+}
+fn held(id: u8) -> impl FnOnce(&mut Stakker) + 'static {
+    let t = HTok(id);
+    move |_s: &mut Stakker| {
+        let o = obs();
+        if o.held_n < 4 {
+            o.held_run[o.held_n] = id;
+        }
+        o.held_n += 1;
+        drop(t);
+    }
+}
+
+fn new_world() -> (Stakker, Actor<Val>) {
+    obs_reset();
+    let mut s = Stakker::new(base_instant());
+    let a = Actor { rc: ActorRc::new(&mut s, Some(notifier()), 0) };
+    (s, a)
+}
+
+fn state_of(a: &Actor<Val>) -> u8 {
+    // 0 prep, 1 ready, 2 zombie
+    if a.rc.is_prep() { 0 } else if a.is_zombie() { 2 } else { 1 }
+}
+
+// ---- C03: Prep -> Zombie with calls held; repeated termination requests ----
+fn prep_terminate_twice() {
+    let (mut s, a) = new_world();
+    assert!(state_of(&a) == 0);
+    // two calls held for the Prep actor
+    a.rc.borrow_prep(&mut s.actor_owner).unwrap().queue.push(held(1));
+    a.rc.borrow_prep(&mut s.actor_owner).unwrap().queue.push(held(2));
+    let (c1, k1, p1) = any_cause();
+    let (c2, _k2, _p2) = any_cause();
+    a.terminate(&mut s, c1);
+    assert!(state_of(&a) == 2, "C03: not a Zombie after termination");
+    let o = obs();
+    assert!(o.notified == 1 && o.cause == k1 && o.err == p1, "C03: notifier must run once with the first cause, payload intact");
+    assert!(o.held_n == 0 && o.held_drops[1] == 1 && o.held_drops[2] == 1, "C02/C03: held calls must be dropped exactly once, never run");
+    a.terminate(&mut s, c2);
+    assert!(state_of(&a) == 2 && o.notified == 1 && o.cause == k1 && o.err == p1, "C03: a second termination must change nothing");
+    // becoming Ready afterwards is ignored: the value is dropped, the actor stays a Zombie
+    a.to_ready(&mut s, Val(7));
+    assert!(state_of(&a) == 2 && o.val_drops == 1 && o.notified == 1, "C03: a Zombie left the Zombie state");
+    assert!(a.rc.borrow_ready(&mut s.actor_owner).is_none() && a.rc.borrow_prep(&mut s.actor_owner).is_none());
+    kani::cover!(k1 == 2 && p1 == 42, "failed with payload");
+    kani::cover!(k1 == 4, "dropped");
+    std::mem::forget(a);
+    std::mem::forget(s);
+}
+
+// ---- C02/C03: Prep -> Ready flushes held calls in order before returning; then termination drops the value once ----
+fn ready_then_terminate() {
+    let (mut s, a) = new_world();
+    a.rc.borrow_prep(&mut s.actor_owner).unwrap().queue.push(held(1));
+    a.rc.borrow_prep(&mut s.actor_owner).unwrap().queue.push(held(2));
+    a.rc.borrow_prep(&mut s.actor_owner).unwrap().queue.push(held(3));
+    a.to_ready(&mut s, Val(9));
+    let o = obs();
+    assert!(state_of(&a) == 1, "C03: not Ready after to_ready");
+    assert!(o.held_n == 3 && o.held_run[0] == 1 && o.held_run[1] == 2 && o.held_run[2] == 3, "C02: held calls must run in order as soon as the actor is Ready");
+    assert!(o.held_drops[1] == 1 && o.held_drops[2] == 1 && o.held_drops[3] == 1);
+    assert!(o.val_drops == 0 && o.notified == 0);
+    assert!(a.rc.borrow_ready(&mut s.actor_owner).map(|v| v.0) == Some(9));
+    let (c1, k1, p1) = any_cause();
+    let (c2, _, _) = any_cause();
+    a.terminate(&mut s, c1);
+    assert!(state_of(&a) == 2 && o.val_drops == 1 && o.val_dropped_before_notify, "C03: value must be dropped once, no later than the notification");
+    assert!(o.notified == 1 && o.cause == k1 && o.err == p1, "C03: notifier must run once with the first cause");
+    a.terminate(&mut s, c2);
+    assert!(o.val_drops == 1 && o.notified == 1 && o.cause == k1 && state_of(&a) == 2, "C03: second termination must change nothing");
+    kani::cover!(k1 == 3, "killed");
+    std::mem::forget(a);
+    std::mem::forget(s);
+}
+
+// ---- C03: a call held in Prep terminates the actor while the queue is flushed by to_ready ----
+static mut ACTOR: Option<Actor<Val>> = None;
+fn actor_ref() -> &'static Actor<Val> {
+    #[allow(static_mut_refs)]
+    unsafe { ACTOR.as_ref().unwrap() }
+}
+fn stop_during_flush() {
+    let (mut s, a) = new_world();
+    unsafe { ACTOR = Some(a.clone()) };
+    a.rc.borrow_prep(&mut s.actor_owner).unwrap().queue.push(held(1));
+    // the held call stops the actor (what `stop!` does after the method returns)
+    a.rc.borrow_prep(&mut s.actor_owner).unwrap().queue.push(|s: &mut Stakker| actor_ref().terminate(s, StopCause::Stopped));
+    a.rc.borrow_prep(&mut s.actor_owner).unwrap().queue.push(held(2));
+    a.to_ready(&mut s, Val(3));
+    let o = obs();
+    assert!(o.notified == 1 && o.cause == 1 && o.val_drops == 1, "C03: stop from a held call must terminate once");
+    assert!(state_of(&a) == 2, "C03: is_zombie() must be true from the termination on");
+    assert!(a.rc.borrow_ready(&mut s.actor_owner).is_none(), "C03: a terminated actor has no value");
+    kani::cover!(o.held_n == 2, "both plain held calls ran");
+    std::mem::forget(a);
+    std::mem::forget(s);
+}
+
+// ---- C02: apply_prep gating in each state, first-cause rule of Cx, fate of held calls when init ends ----
+// (Actor::apply itself is not driven: in Prep it builds a closure that captures an Actor, whose drop glue is
+//  type-recursive -- DESIGN P10.  Held calls are placed on the Prep queue directly, as apply does.)
+fn gating() {
+    let (mut s, a) = new_world();
+    a.rc.borrow_prep(&mut s.actor_owner).unwrap().queue.push(held(1));
+    let mk: bool = kani::any();
+    let die: bool = kani::any();
+    a.apply_prep(&mut s, move |cx| {
+        if die {
+            cx.fail(E(5));
+            cx.stop(); // first cause wins
+        }
+        if mk { Some(Val(4)) } else { None }
+    });
+    let o = obs();
+    if die {
+        assert!(state_of(&a) == 2 && o.notified == 1 && o.cause == 2 && o.err == 5, "C03: fail in a Prep call terminates with the first cause");
+        assert!(o.held_n == 0 && o.held_drops[1] == 1, "C02: held calls must be discarded (dropped once, never run) when the actor terminates in Prep");
+        assert!(o.val_drops == if mk { 1 } else { 0 });
+    } else if mk {
+        assert!(state_of(&a) == 1 && o.held_n == 1 && o.held_run[0] == 1, "C02: held call must run once the actor is Ready");
+        // Ready: a Prep-style call does nothing
+        a.apply_prep(&mut s, |_cx| {
+            obs().held_n += 10;
+            None
+        });
+        assert!(o.held_n == 1 && state_of(&a) == 1, "C02: a Prep-style call ran outside Prep");
+        a.terminate(&mut s, StopCause::Stopped);
+        // Zombie: nothing runs
+        a.apply_prep(&mut s, |_cx| {
+            obs().held_n += 100;
+            None
+        });
+        assert!(o.held_n == 1 && o.notified == 1 && o.val_drops == 1, "C02: a call ran on a Zombie");
+    } else {
+        assert!(state_of(&a) == 0 && o.held_n == 0 && o.notified == 0 && o.held_drops[1] == 0, "C02: held call lost although the actor is still in Prep");
+        // a second Prep call still runs
+        a.apply_prep(&mut s, |_cx| {
+            obs().held_n += 10;
+            None
+        });
+        assert!(o.held_n == 10, "C02: Prep-style call did not run in Prep");
+    }
+    kani::cover!(die && mk, "init fails but returns a value");
+    kani::cover!(!die && mk, "init succeeds");
+    kani::cover!(!die && !mk, "init not finished");
+    std::mem::forget(a);
+    std::mem::forget(s);
+}
+
+macro_rules! actor_harness {
+    ($name:ident, $body:ident) => {
+        #[kani::proof]
+        #[kani::unwind(10)]
+        #[kani::stub(std::hash::RandomState::new, crate::uazu_stakker_verif::support::fixed_random_state)]
+        fn $name() {
+            $body();
+        }
+    };
+}
+
+// @verif prop=C03,C02,C05 tier=quick timeout=400 mem=24 unwind=10 unwindset=drop_glue::<\[.*Stakker\)>\]>\.0$:4
+// @enc Actor::terminate Actor::to_ready ActorRc::{new,to_zombie,to_ready,is_prep,is_zombie,borrow_prep,borrow_ready} CountAndState::set_state Ret::{new,ret,drop}
+// @sym two termination requests: cause in {Stopped, Failed(e), Killed(e), Dropped} x payload
+// @bound Prep actor with 2 held calls: terminate, terminate, to_ready
+// @stub std::hash::RandomState::new -> fixed keys
+// @assume multi-stakker,no-unsafe-queue build (packed ActorRc, QCell owner, inline deferrer)
+actor_harness!(act_prep_terminate_twice, prep_terminate_twice);
+// @verif prop=C03,C02 tier=quick timeout=400 mem=24 unwind=10 unwindset=drop_glue::<\[.*Stakker\)>\]>\.0$:4
+// @enc as act_prep_terminate_twice, plus Prep queue flush (FnOnceQueue::execute inside to_ready)
+// @sym two termination requests (cause x payload)
+// @bound Prep actor with 3 held calls: to_ready, terminate, terminate
+// @stub std::hash::RandomState::new -> fixed keys
+// @assume multi-stakker,no-unsafe-queue build
+actor_harness!(act_ready_then_terminate, ready_then_terminate);
+// @verif prop=C03,C18 tier=quick timeout=400 mem=24 unwind=10 unwindset=drop_glue::<\[.*Stakker\)>\]>\.0$:4
+// @enc ActorRc::to_ready (state word vs queue flush order) Actor::terminate
+// @sym none (fixed script)
+// @bound Prep actor with 3 held calls, the second of which stops the actor while to_ready flushes the queue
+// @stub std::hash::RandomState::new -> fixed keys
+// @assume multi-stakker,no-unsafe-queue build
+actor_harness!(act_stop_during_flush, stop_during_flush);
+// @verif prop=C02,C03 tier=quick timeout=400 mem=24 unwind=10 unwindset=drop_glue::<\[.*Stakker\)>\]>\.0$:4
+// @enc Actor::{apply_prep,terminate,to_ready} Cx::{new,stop,fail} ActorRc::*
+// @sym init outcome: {returns a value or not} x {fails or not}
+// @bound one held call; one Prep call; then Prep-style calls in Ready / Zombie / Prep
+// @stub std::hash::RandomState::new -> fixed keys
+// @assume multi-stakker,no-unsafe-queue build
+actor_harness!(act_gating, gating);
+
+#[cfg(uazu_replay_actor)]
+include!(env!("UAZU_STAKKER_REPLAY_FILE"));
